@@ -33,9 +33,11 @@ FLOORS = {"quick": {"evaluations": 1500, "oracle_checks": 1500, "malformed_cases
 
 def shards(tier, seed):
     if tier == "quick":
-        return [{"seed": seed * 1000 + i, "n": 260, "n_mal": 12, "n_stack": 8, "max_in": 5,
+        return [{"seed": seed * 1000 + i, "python_O": i % 3 == 2,
+                 "n": 260, "n_mal": 12, "n_stack": 8, "max_in": 5,
                  "max_out": 5} for i in range(8)]
-    return [{"seed": seed * 1000 + i, "n": 40000, "n_mal": 400, "n_stack": 300, "max_in": 20,
+    return [{"seed": seed * 1000 + i, "python_O": i % 3 == 2,
+                 "n": 40000, "n_mal": 400, "n_stack": 300, "max_in": 20,
              "max_out": 20, "big": True} for i in range(16)]
 
 
